@@ -11,6 +11,19 @@ BASE_TRUST = ("Trusted: the pyvc VC generator itself (ast -> z3; cross-checked b
               "(no module-/class-level mutable state, no mutable defaults, no store outside locals/self) on which the per-function, "
               "fresh-object argument rests. ")
 
+SESSION3_NOTES = {
+    "C02": " Also discharged here: SocketWrapper units + refinement lemmas (socket-backed streams), tables.WF and tables.needs_no_more_bits_than_standard (a valid frame is one laid out as the pinned standard says).",
+    "C03": " Also discharged here: tables.lengths / siblings / msm / field_entries against the pinned standard data (the definition is the standard's layout).",
+    "C04": " Includes the SocketWrapper units (plain + chunked) and refinement lemmas: no foreign exception out of the library's own stream either.",
+    "C05": " Includes the reader's constructor (the chosen error mode is the one stored) and the SocketWrapper units + refinement lemmas.",
+    "C07": " Includes the decode-path units ('every valid frame parses': the walk raises only where the reference interpreter fails, the MSM maps raise nothing).",
+    "C08": " The constructor's caller view requires that only payload and label option are passed (the result cannot depend on the checksum bytes).",
+    "C13": " Includes the SocketWrapper units (safety obligations) + refinement lemmas: what the wrapper hands out depends on the peer's bytes only.",
+    "C15": " Also discharged here: tables.identity_set (which numbers have a payload definition is the pinned standard's set).",
+    "C17": " Includes the SocketWrapper units + refinement lemmas (same raw frames over socket-backed streams).",
+    "C18": " Also discharged here: tables.msm (the epoch field of each constellation, PRN and signal maps, pinned).",
+}
+
 CLAIMS = {
     "C08": dict(
         category="proof",
@@ -254,7 +267,7 @@ for p in props:
             "replay_cmd_template": "python3-vt -m pyvc replay {path}",
             "engine": "pyvc",
             "level_claimed": {"category": c["category"], "text": c["text"], "design_ref": c["design_ref"]},
-            "level_note": c["note"],
+            "level_note": c["note"] + SESSION3_NOTES.get(pid, ""),
             "technique": c["technique"],
         })
     else:
